@@ -121,6 +121,31 @@ def c13(tier):
             ck.nontrivial.add(q["i"])
         if len(ck.samples) < 5 and o["failed"] and q["i"] % 37 == 0:
             ck.sample(dict(cid, status=o.get("status"), code=o.get("code")))
+    # the rejected requests and the read requests once more, many at a time: each must get the reply it gets alone, and the
+    # process must live (an error value shared between requests is written by one and read by another)
+    again = [q for q in reqs if q["readonly"] and not results[q["i"]].get("exited") and not results[q["i"]].get("panicked")
+             and "huge" not in json.dumps(q["fields"])]
+    rej = [q for q in again if results[q["i"]]["failed"]]
+    rnd2 = random.Random(seed())
+    pick2 = rej if len(rej) <= 600 else rnd2.sample(rej, 600)
+    pick2 = pick2 + rnd2.sample([q for q in again if not results[q["i"]]["failed"]], min(100, len(again) - len(rej)))
+    lib.CRASHED.clear()
+    crecs = run_harness(binary, "fuzz", {"reqs": pick2, "conc": 16}, shards=8, tolerate_crash=True, timeout=1200)
+    started = sum(1 for x in crecs if "conc_start" in x)
+    done = [x for x in crecs if "conc_done" in x]
+    if lib.CRASHED:
+        if started == 0:
+            raise Inconclusive("concurrent pass died before it started: %s" % lib.CRASHED[0][2][-1500:])
+        ck.violation("the server process exited while rejected and read requests were handled %d at a time (each of them is answered alone)" % 16,
+                     {"crash": lib.CRASHED[0][2][:3000], "requests": len(pick2)})
+    elif len(done) < 8:
+        raise Inconclusive("the concurrent pass did not finish")
+    for x in done:
+        ck.evaluations += x["conc_done"]
+        for d in x["diffs"] or []:
+            rq = next(q for q in reqs if q["i"] == d["i"])
+            ck.violation("a request is answered differently when other requests are in flight", dict(d, endpoint=rq["ep"], fields=rq["fields"]))
+    ck.extra["requests_repeated_16_at_a_time"] = len(pick2)
     if not ck.samples:
         ck.sample({"endpoint": reqs[0]["ep"], "fields": reqs[0]["fields"]})
     ck.extra["requests"] = len(reqs)
